@@ -1,6 +1,6 @@
 (* Runner for property C07: wire arguments -> model -> wire result.
-     c07 canon <flags> x<json text>    flags: bit 0 fix_comma, 1 fix_negfloat, 2 fix_eof, 3 fix_range
-                                        (15 = the fixed code = `canon`, 0 = the unfixed tree = `canon_today`)
+     c07 canon <flags> x<json text>    flags: bit 0 fix_comma, 1 fix_negfloat, 2 fix_eof, 3 fix_range, 4 fix_nullkey
+                                        (31 = the fixed code = `canon`, 0 = the unfixed tree = `canon_today`)
        -> ( ok x<canonical bytes> ) | ( err <kind> ) | ( err panic )
      c07 norm x<json text>  -> ( ok x<print (norm (parse text))> ) | ( err <kind> )   (the specification reading)
    Same operation names as harness/c07.go (which ignores the flags). *)
@@ -23,7 +23,7 @@ Definition enc_result (r : result bytes) : list V :=
   end.
 
 Definition cfg_of_flags (z : Z) : cfg :=
-  mkCfg (Z.testbit z 0) (Z.testbit z 1) (Z.testbit z 2) (Z.testbit z 3).
+  mkCfg (Z.testbit z 0) (Z.testbit z 1) (Z.testbit z 2) (Z.testbit z 3) (Z.testbit z 4).
 
 Definition run_c07 (args : list V) : list V :=
   match args with
